@@ -6,6 +6,7 @@ from ..encoding.sec import sec_to_public_pair, EncodingError
 
 from . import der
 from . import errno
+from .intops import pop_check_bounds
 
 from .flags import (
     SIGHASH_ALL,
@@ -204,13 +205,13 @@ def do_OP_CHECKSIG(vm: Any) -> None:
 
 
 def do_OP_CHECKMULTISIG(vm: Any) -> None:
-    key_count = vm.pop_int()
+    key_count = pop_check_bounds(vm)
     if key_count < 0 or key_count > 20:
         raise ScriptError("key_count not in range 0 to 20", errno.PUBKEY_COUNT)
     public_pair_blobs = [vm.pop() for _ in range(key_count)]
     public_pair_blobs.reverse()
 
-    signature_count = vm.pop_int()
+    signature_count = pop_check_bounds(vm)
     if signature_count < 0 or signature_count > key_count:
         raise ScriptError(
             "invalid number of signatures: %d for %d keys"
